@@ -257,3 +257,51 @@ func hC07RestOut() {
 		verifAssert(backSet[i] && back[i] == msg.fvals[i], "C07: converting a message to REST and back is the identity")
 	}
 }
+
+// hC07HttpBody: REST client uploading a google.api.HttpBody request (rule body "*"): the backend's message has
+// data = the raw body bytes and content_type = the request's Content-Type, and query parameters are applied
+// after the body whatever media type the upload declares.
+func hC07HttpBody() {
+	svc := newFakeService(pipeSvc)
+	svc.addMethodIn(pipeMethod, fkUnary, 0, false, fakeHTTPBodyDesc())
+	backend := &pipeBackend{target: ProtocolGRPC, unary: true, codec: CodecProto, bufSize: 16}
+	fc := &fakeConfig{protocols: []Protocol{ProtocolGRPC}, codecs: []string{CodecProto}, maxMsg: 4096, fieldsMode: true}
+	rules := []*annotations.HttpRule{{Selector: pipeSvc + "." + pipeMethod, Pattern: &annotations.HttpRule_Post{Post: "/upload"}, Body: "*"}}
+	tr, err := newFakeTranscoder(svc, backend, fc, rules, nil)
+	verifAssert(err == nil, "HttpBody rule accepted")
+	if err != nil {
+		return
+	}
+	backend.script = &respScript{msgs: []wireMsg{{}}}
+	contentType := []string{"application/octet-stream", "text/plain", "image/png", "application/json"}[verifChoose("contentType", 4)]
+	body := nondetBytes("body", verifChoose("bodyLen", 3))
+	wantType := contentType
+	query := ""
+	if verifChoose("withQuery", 2) == 1 {
+		qv := string(nondetBytes("queryType", 1))
+		verifAssume(refUnreserved(qv[0]))
+		query = "content_type=" + qv
+		wantType = qv
+	}
+	req := &http.Request{Method: "POST", URL: &url.URL{Path: "/upload", RawQuery: query}, Proto: "HTTP/1.1", ProtoMajor: 1, ProtoMinor: 1,
+		Header: http.Header{"Content-Type": {contentType}}, Body: &fakeBody{data: body}, ContentLength: -1}
+	sink := newFakeSink()
+	tr.ServeHTTP(sink, req)
+	verifObsInt("calls", int64(backend.rec.calls))
+	verifObsBytes("backend-body", backend.rec.body)
+	verifObsInt("status", int64(sink.status))
+	verifReach("httpbody-upload-served")
+	verifAssert(backend.rec.calls == 1, "C07: an HttpBody upload matching the rule is dispatched")
+	if backend.rec.calls != 1 {
+		return
+	}
+	frames, complete := refSplitFrames(backend.rec.body)
+	verifAssert(complete && len(frames) == 1, "C07: backend received one message")
+	if !complete || len(frames) != 1 {
+		return
+	}
+	got, gotSet, ok := refToyFields(false, frames[0].payload)
+	verifAssert(ok, "C07: backend message decodes")
+	verifAssert(gotSet[1] && got[1] == string(body), "C07: HttpBody data = the raw request body")
+	verifAssert(gotSet[0] && got[0] == wantType, "C07: HttpBody content_type = the request's Content-Type, then query parameters")
+}
